@@ -36,32 +36,48 @@ structure Inst where
   attrs : Attrs
   /-- `_instantiated` is in `__dict__` (set last by `__init__`; restored by `__setstate__`) -/
   instantiated : Bool := true
-  /-- `_none_fields` (`None`/absent and the empty set are indistinguishable for `__eq__`/`__str__`) -/
+  /-- `_none_fields` (`None`/absent and the empty set are indistinguishable for `__eq__`/`__str__`):
+      the fields explicitly assigned `None` on a class with `_enable_undefined_value` -/
   nones : List String := []
+  /-- the class has `_enable_undefined_value = True` (read through the instance, as the code does) -/
+  undef : Bool := false
 deriving Repr, Inhabited
+
+/-- what `__eq__` needs to know of the class: field defaults and the names of the declared fields -/
+structure EqCtx where
+  defaults : Attrs := []
+  fields : List String := []
+deriving Repr, Inhabited
+
+/-- the `Undefined` marker an unset field of an `_enable_undefined_value` class reads as -/
+def undefinedV : PyVal := .opaque "Undefined"
 
 /-! ### `Structure.__eq__` -/
 
-/-- value read back for key `k`: `getattr(x, k)` for a field (its default, else `None`, when unset),
-    `x.__dict__.get(k)` for an extra attribute (`defaults` mentions fields only) -/
-def getA (defaults : Attrs) (x : Inst) (k : String) : PyVal :=
+/-- value read back for key `k`: `getattr(x, k)` for a field — when unset: `Undefined` on an
+    `_enable_undefined_value` class unless the field was explicitly assigned `None`
+    (`_none_fields`), else its default, else `None` — and `x.__dict__.get(k)` for an extra
+    attribute (`d.defaults` mentions fields only) -/
+def getA (d : EqCtx) (x : Inst) (k : String) : PyVal :=
   match lookup k x.attrs with
   | some v => v
-  | none => match lookup k defaults with
-    | some d => d
-    | none => .none
+  | none =>
+    if x.undef && d.fields.contains k && !x.nones.contains k then undefinedV
+    else match lookup k d.defaults with
+      | some dv => dv
+      | none => .none
 
 /-- `set(a) == set(b)` on name lists -/
 def namesEq (a b : List String) : Bool := a.all b.contains && b.all a.contains
 
-def instEq (defaults : Attrs) (a b : Inst) : Bool :=
-  a.cls == b.cls
+def instEq (defaults : EqCtx) (a b : Inst) : Bool :=
+  a.cls == b.cls && a.undef == b.undef
   && (a.attrs ++ b.attrs).all (fun kv => pyEq (getA defaults a kv.1) (getA defaults b kv.1))
   && namesEq a.nones b.nones
 
 /-- the statement's "field-wise equality of the values read back", over *all* names -/
-def FieldwiseEq (defaults : Attrs) (a b : Inst) : Prop :=
-  a.cls = b.cls ∧ (∀ k, pyEq (getA defaults a k) (getA defaults b k) = true)
+def FieldwiseEq (defaults : EqCtx) (a b : Inst) : Prop :=
+  a.cls = b.cls ∧ a.undef = b.undef ∧ (∀ k, pyEq (getA defaults a k) (getA defaults b k) = true)
   ∧ namesEq a.nones b.nones = true
 
 /-! ### `Structure.__str__` / `__hash__` -/
@@ -173,7 +189,7 @@ end
     part of the state).  (`__getstate__` lists the fields in class-body order, then the extras; the
     order of `__dict__` is not observable through `==`, `str` or `hash` and is not modelled.) -/
 def pickleI (S : SetOrder) (x : Inst) : Inst :=
-  { cls := x.cls, attrs := rebuildAttrs S x.attrs, instantiated := true, nones := [] }
+  { cls := x.cls, attrs := rebuildAttrs S x.attrs, instantiated := true, nones := [], undef := x.undef }
 
 /-- `__deepcopy__`: an immutable structure is returned as is; otherwise every `__dict__` entry is
     deep-copied and re-assigned through `__setattr__` under `_skip_validation`, which drops a
@@ -181,9 +197,42 @@ def pickleI (S : SetOrder) (x : Inst) : Inst :=
 def deepcopyI (c : ClassOpts) (S : SetOrder) (x : Inst) : Inst :=
   if c.immutable then x
   else { x with attrs := (rebuildAttrs S x.attrs).filter
-                  (fun kv => !(kv.2.isNone && c.ignoreNone && !c.required.contains kv.1)) }
+                  (fun kv => !(kv.2.isNone && (c.ignoreNone || x.undef) && !c.required.contains kv.1)) }
 
 /-! ### mutation of an instance that knows whether it is `_instantiated` -/
+
+/-- `_none_fields.add(f)` -/
+def addName (f : String) (ns : List String) : List String := if ns.contains f then ns else ns ++ [f]
+
+/-- `Structure.__setattr__` on a class with `_enable_undefined_value`: after the immutability and
+    the non-field checks, `None` for a non-required name is never stored — a field is recorded in
+    `_none_fields` (whatever `__dict__` holds for it stays) — and a non-`None` value for a field
+    discards the name from `_none_fields` and goes through the validated assignment; if that is
+    rejected the name is recorded again (failure-atomic since 810b853) -/
+def setattrUndef (O : Oracles) (c : ClassOpts) (fields : List (String × FieldDecl)) (x : Inst)
+    (f : String) (v : PyVal) : Inst × Outcome :=
+  if c.immutable then (x, .err .valueErr)
+  else
+    let isField := (lookup f fields).isSome
+    if !isField && !c.addl then (x, .err .valueErr)
+    else if v.isNone && !c.required.contains f then
+      (if isField then { x with nones := addName f x.nones } else x, .ok)
+    else
+      let r := setattrStep O c fields x.attrs f v
+      let ns := match r.2 with
+        | .ok => if isField && !v.isNone then x.nones.filter (fun n => n != f) else x.nones
+        | .err _ => x.nones       -- a rejected assignment restores `_none_fields` (810b853)
+      ({ x with attrs := r.1, nones := ns }, r.2)
+
+/-- the table row of mutator `m` on the wrapper of field `f` re-assigns the field -/
+def callReassigns (tbl : List MethodRec) (fields : List (String × FieldDecl)) (f : String) (m : NOp) : Bool :=
+  match lookup f fields with
+  | none => false
+  | some fd => match wrapperKind fd with
+    | none => false
+    | some kind => match findRec tbl kind m.name with
+      | none => false
+      | some r => r.validated
 
 /-- `Structure.__setattr__` refuses an immutable structure only once `_instantiated` is set;
     `__delitem__` and the wrappers' guards look at the class alone -/
@@ -191,8 +240,18 @@ def stepI (tbl : List MethodRec) (O : Oracles) (c : ClassOpts) (fields : List (S
     (x : Inst) (op : Op) : Inst × Outcome :=
   match op with
   | .setattr f v =>
-    let r := setattrStep O { c with immutable := c.immutable && x.instantiated } fields x.attrs f v
-    ({ x with attrs := r.1 }, r.2)
+    if x.undef then
+      setattrUndef O { c with immutable := c.immutable && x.instantiated } fields x f v
+    else
+      let r := setattrStep O { c with immutable := c.immutable && x.instantiated } fields x.attrs f v
+      ({ x with attrs := r.1 }, r.2)
+  | .call f m =>
+    let r := step tbl O c fields x.attrs (.call f m)
+    -- a wrapper mutator that re-assigns the mutated copy goes through `Structure.__setattr__`, which
+    -- on an `_enable_undefined_value` class un-records an explicit `None` of that field on success
+    let ns := if x.undef && r.2 == .ok && callReassigns tbl fields f m
+              then x.nones.filter (fun n => n != f) else x.nones
+    ({ x with attrs := r.1, nones := ns }, r.2)
   | op =>
     let r := step tbl O c fields x.attrs op
     ({ x with attrs := r.1 }, r.2)
